@@ -1,2 +1,51 @@
+import Gopki.Lemmas.DerLemmas
 import Gopki.Spec.Ext
 import Gopki.Model.V1
+import Gopki.Generated.Facts
+/-! # C16 — admission extension is the CommonPKI AdmissionSyntax of the configured content
+
+The encoder (`Cert.admissionTlv` and friends) is tied to the implementation byte for byte by the `ext`
+operation, which also runs the CommonPKI decoder `SpecExt.decAdmission` on the implementation's bytes.
+The theorems here fix the tagging decisions of the syntax. -/
+namespace C16
+open Der Asn1 Cert
+
+/-- each GeneralName kind gets its own context tag: rfc822Name [1], dNSName [2], URI [6], iPAddress [7] -/
+theorem C16_general_name_tags (s : String) (a b c d : UInt8) :
+    (∃ x, (GeneralName.rfc822 s).marshal = .prim 0x81 x) ∧ (∃ x, (GeneralName.dns s).marshal = .prim 0x82 x) ∧
+    (∃ x, (GeneralName.uri s).marshal = .prim 0x86 x) ∧ (GeneralName.ip a b c d).marshal = .prim 0x87 [a, b, c, d] :=
+  ⟨⟨_, rfl⟩, ⟨_, rfl⟩, ⟨_, rfl⟩, rfl⟩
+
+/-- the configuration's four authority kinds are converted to those kinds (`mail` ↦ rfc822Name, `url` ↦ URI),
+    and an absent authority stays absent -/
+theorem C16_convert_kinds (n : String) :
+    V1.convertGeneralName ⟨"dns", n⟩ = .ok (some (.dns n)) ∧ V1.convertGeneralName ⟨"mail", n⟩ = .ok (some (.rfc822 n)) ∧
+    V1.convertGeneralName ⟨"url", n⟩ = .ok (some (.uri n)) ∧ V1.convertGeneralName ⟨"", n⟩ = .ok none :=
+  ⟨rfl, rfl, rfl, rfl⟩
+
+/-- the same, as observed on the running code (regenerated): identifier octets of `convert` on the four kinds -/
+theorem C16_convert_kinds_facts :
+    Facts.generalNameConvert = [("ip", 0x87), ("dns", 0x82), ("mail", 0x81), ("url", 0x86)] := by decide
+
+/-- Admissions: the authority goes under [0] EXPLICIT, the naming authority under [1] EXPLICIT, and absent
+    optional parts are omitted -/
+theorem C16_admissions_tagging (g : GeneralName) :
+    admissionsTlv ⟨some g, ⟨[], "", ""⟩, []⟩ = .ok (tSeq [tExplicit 0 g.marshal]) ∧
+    admissionsTlv ⟨none, ⟨[], "", "x"⟩, []⟩ = .ok (tSeq [tExplicit 1 (tSeq [tUtf8 "x"])]) ∧
+    admissionsTlv ⟨none, ⟨[], "", ""⟩, []⟩ = .ok (tSeq []) := by
+  refine ⟨?_, ?_, ?_⟩ <;> rfl
+
+/-- ProfessionInfo: naming authority under [0] EXPLICIT, registration number as PrintableString,
+    additional info as OCTET STRING, absent parts omitted -/
+theorem C16_profession_info_shape (item : String) (add : Bytes) (hadd : add ≠ []) :
+    professionInfoTlv ⟨⟨[], "", ""⟩, [item], [], "", add⟩ = .ok (tSeq [tSeq [tUtf8 item], tOctet add]) := by
+  unfold professionInfoTlv
+  cases add with
+  | nil => exact absurd rfl hadd
+  | cons x xs => rfl
+
+/-- a registration number that is not a PrintableString is an error, not a silently re-typed string -/
+theorem C16_registration_number_checked (s : String) (h : printableValid s = false) : ∃ e, printableR s = .error e := by
+  unfold printableR; simp only [h]; exact ⟨_, rfl⟩
+
+end C16
